@@ -35,6 +35,11 @@ def main():
             run.undecide('%s/supported' % pid, 'construct outside the verified subset: %s' % ex)
         else:
             run.engine_error('check crashed: ' + traceback.format_exc()[-1500:].replace('\n', ' | '))
+    try:
+        from checks import common
+        common.run_generic(run, tier)
+    except Exception:
+        run.engine_error('generic frame obligations crashed: ' + traceback.format_exc()[-1200:].replace('\n', ' | '))
     code = run.finish()
     sys.exit(code)
 
